@@ -5,6 +5,7 @@ import (
 	"go/constant"
 	"go/token"
 	"go/types"
+	"strings"
 
 	"golang.org/x/tools/go/ssa"
 )
@@ -866,4 +867,51 @@ func zeroGuarded(fn *ssa.Function, vals map[ssa.Value]bool, perSegment func(ssa.
 		}
 	}
 	return true
+}
+
+// checkCodeWrap: the 16-bit decoders key their result by
+// uint16(code2rune(code)). The conversion is harmless as long as the code
+// itself is a 16-bit value (code2rune is the identity or the Mac Roman table);
+// a code computed as firstCode+i can exceed 0xFFFF, wraps, and lands on a
+// character the table does not map.
+func checkCodeWrap(w *World, r *Report) {
+	r.Rule("codewrap: in the cmap format decoders every code handed to the code-to-rune function whose result is narrowed to uint16 is shown by the linear prover to lie in 0..0xFFFF at that point (type range of the expression, dominating checks on the header fields, loop bounds): a format 6 table with firstCode+entryCount > 0x10000 must not wrap around to low codes")
+	br := newBoundsRun(w)
+	n := 0
+	for _, fn := range w.LibFuncs() {
+		if !strings.HasSuffix(fnPkgPath(fn), "/cmap") || !strings.HasPrefix(fn.Name(), "decodeFormat") {
+			continue
+		}
+		for _, b := range fn.Blocks {
+			for _, in := range b.Instrs {
+				cv, ok := in.(*ssa.Convert)
+				if !ok {
+					continue
+				}
+				bt, ok := cv.Type().Underlying().(*types.Basic)
+				if !ok || bt.Kind() != types.Uint16 {
+					continue
+				}
+				call, ok := cv.X.(*ssa.Call)
+				if !ok || call.Common().StaticCallee() != nil || call.Common().IsInvoke() || len(call.Common().Args) != 1 {
+					continue
+				}
+				// a call through a function value (the code-to-rune parameter, possibly replaced
+				// by a default): the result is a rune
+				if rb, ok := call.Type().Underlying().(*types.Basic); !ok || rb.Kind() != types.Int32 {
+					continue
+				}
+				n++
+				p := br.prover(fn)
+				arg := call.Common().Args[0]
+				key := r.MkKey("codewrap", fnName(fn), "uint16("+p.srcOf(call)+")")
+				if p.fitsType(p.linOf(arg), cv.Type(), cv) {
+					r.OK("codewrap", key, w.Pos(cv.Pos()), "the code is a 16-bit value")
+				} else {
+					r.Fail("codewrap", key, w.Pos(cv.Pos()), "the code "+p.srcOf(arg)+" is not shown to stay below 0x10000: a larger code wraps around in the conversion to uint16 and the subtable maps a low character it does not contain (format 6: firstCode 0xFFFE with 4 entries maps characters 0 and 1)", nil)
+				}
+			}
+		}
+	}
+	r.Floor("codewrap", 4)
 }
